@@ -35,7 +35,12 @@ def gen(rng, tier):
 
 
 def precheck(case, obs):
-    return B.precheck_common(case, obs)
+    v = B.precheck_common(case, obs)
+    if v:
+        return v
+    if B.clock_moved_while_paused(obs):        # "once the pause request has returned the system clock does not advance"
+        return {"agree": True, "prop_ok": False}
+    return None
 
 
 def nontrivial(case, obs):
@@ -57,6 +62,8 @@ def nontrivial(case, obs):
 def signature(case, obs):
     if "error" in obs or "crash" in obs:
         return "harness-error"
+    if B.clock_moved_while_paused(obs):
+        return "clock-advances-during-acknowledged-pause"
     tr = B.project(obs.get("trace") or [])
     acked = False
     for e in tr:
